@@ -466,3 +466,59 @@ func sameConst(a, b ssa.Value) bool {
 	cb, ok2 := ir.Canon(b).(*ssa.Const)
 	return ok1 && ok2 && ca.Value != nil && cb.Value != nil && ca.Value.ExactString() == cb.Value.ExactString()
 }
+
+// ruleReusedDecodeTargetReset: vtproto's UnmarshalVT *merges* into its receiver. When a
+// message object lives across iterations of a loop (pooled / declared outside), it must
+// be reset between two unmarshals, otherwise every entry also re-applies the content of
+// the previous ones.
+func ruleReusedDecodeTargetReset(h *H, rule string) {
+	h.Rule(rule, "K1", "a message object that is reused across loop iterations is reset (ResetVT/Reset) on every path between two UnmarshalVT calls into it", 1)
+	n := 0
+	for _, fn := range h.P.Funcs {
+		if ir.RelPkg(ir.PkgPathOf(fn)) != "server" {
+			continue
+		}
+		ir.Instrs(fn, func(in ssa.Instruction) {
+			c, ok := in.(*ssa.Call)
+			if !ok {
+				return
+			}
+			f := c.Call.StaticCallee()
+			if f == nil || f.Name() != "UnmarshalVT" || len(c.Call.Args) < 1 {
+				return
+			}
+			// only inside a loop
+			if r, _ := ir.Reach(ir.Search{From: in}, ir.Is(in)); !r {
+				return
+			}
+			recv := ir.Canon(c.Call.Args[0])
+			// fresh per iteration: the receiver is created on the cycle through this call
+			if ri, isI := recv.(ssa.Instruction); isI && ri.Parent() == fn {
+				onCycle := false
+				if r1, _ := ir.Reach(ir.Search{From: in}, ir.Is(ri)); r1 {
+					onCycle = true
+				}
+				if onCycle {
+					return
+				}
+			}
+			n++
+			h.Fn(ir.FuncName(fn))
+			isReset := func(x ssa.Instruction) bool {
+				cc, ok := x.(*ssa.Call)
+				if !ok {
+					return false
+				}
+				ff := cc.Call.StaticCallee()
+				return ff != nil && (ff.Name() == "ResetVT" || ff.Name() == "Reset") && len(cc.Call.Args) > 0 && ir.Canon(cc.Call.Args[0]) == recv
+			}
+			r, path := ir.Reach(ir.Search{From: in, Barrier: isReset}, ir.Is(in))
+			h.Verdict(!r, rule, fmt.Sprintf("reused decode target #%d in %s", n, ir.FuncName(fn)), h.pos(in), "reset before every UnmarshalVT",
+				"a reused message is unmarshalled again without being reset: UnmarshalVT merges, so each log entry also re-applies the writes of the entries decoded before it in the same pass", witness(path))
+		})
+	}
+	if n == 0 {
+		h.Note("no reused UnmarshalVT target inside a loop in package server")
+		h.OK(rule, "reused decode targets", "", "none")
+	}
+}
